@@ -679,7 +679,7 @@ def known_C05(prog, impl, monline, mname):
 PENDING["C05"] = dict(
     title="The instruction stack preserves the program's control flow",
     projection="stacks",
-    extra_files=["C05b", "C05c", "C05d", "C05e", "C05f"],
+    extra_files=["C05b", "C05c", "C05d", "C05e", "C05f", "C05g"],
     monitors=[("C05q", "accepted_wf"), ("C05i", "accepted_wf"), ("C10r", "accepted_wf"), ("C05v", "accepted_wf")],
     known_class=known_C05,
     domain="accepted_wf",
@@ -839,9 +839,17 @@ def lints():
             res["failed"].append({"name": name, "properties": properties, "detail": detail})
 
     try:
-        src = open(os.path.join(REPO, "src", "semantic.rs")).read()
+        # src/semantic.rs, or — when that file has been split into a module directory — every file
+        # of src/semantic/ (mod.rs first)
+        one = os.path.join(REPO, "src", "semantic.rs")
+        if os.path.exists(one):
+            src = open(one).read()
+        else:
+            d = os.path.join(REPO, "src", "semantic")
+            names = sorted(os.listdir(d), key=lambda n: (n != "mod.rs", n))
+            src = "\n".join(open(os.path.join(d, n)).read() for n in names if n.endswith(".rs"))
     except OSError as e:
-        add("semantic.rs readable", False, list(PROPS), str(e))
+        add("semantic.rs (or src/semantic/) readable", False, list(PROPS), str(e))
         return res
     code = re.sub(r"//[^\n]*", "", src)
     # 1. self.errors is touched only by add_error and new
